@@ -84,6 +84,8 @@ def enc_seq(a, wide=False, dt=None):
 def dec_val(v, dt):
     k = kind(dt)
     if k == "f":
+        if not isinstance(v, (list, tuple)):
+            return float(v)
         n, d = v
         if d == 0:
             return float("nan") if n == 0 else math.copysign(float("inf"), n)
